@@ -261,7 +261,7 @@ func c16KHGen(r *kit.Rand, id int) c16KHCase {
 
 func TestVerifC16KeyHeader(t *testing.T) {
 	kit.Run(t, "C16", kit.Class[c16KHCase]{
-		Name: "keyheader", Quick: 30000, Thorough: 1000000,
+		Name: "keyheader", Quick: 30000, Thorough: 800000,
 		Gen:   c16KHGen,
 		Check: c16KHCheck,
 		NonTrivial: func(c c16KHCase) bool {
